@@ -5,6 +5,7 @@ Calls to functions under contract use the contract (assert requires, havoc modif
 symbolic sequences are summarised functionally (map-loop rule) or through an explicit invariant.
 """
 import ast
+import os
 import z3
 from . import smt, spec as specmod
 from .smt import Arm, ASeq, RSeq, ISeq, BSeq, Mat, Rng, Opaque, Int, Real, Bool, OptArm, fresh, Obligation
@@ -47,6 +48,7 @@ class PathCtx:
 
 
 _feas_cache = {}
+QUICK_RLIMIT = int(os.environ.get('PYVC_QUICK_RLIMIT', '400000'))
 
 
 def feasible(pc, timeout_ms=400):
@@ -54,7 +56,10 @@ def feasible(pc, timeout_ms=400):
     if not pc:
         return True
     s = z3.Solver()
-    s.set('timeout', timeout_ms)
+    # a deterministic resource budget decides (the wall-clock limit is only a backstop), so that the set of
+    # explored paths does not depend on machine load
+    s.set('rlimit', QUICK_RLIMIT)
+    s.set('timeout', timeout_ms * 25)
     s.set('smt.mbqi', False)
     s.set('smt.auto_config', False)
     for _, f, _ in smt.relevant_axioms(pc):
@@ -146,7 +151,8 @@ class Run:
         if z3.is_false(f):
             return False
         s = z3.Solver()
-        s.set('timeout', timeout_ms)
+        s.set('rlimit', QUICK_RLIMIT)
+        s.set('timeout', timeout_ms * 20)
         s.set('smt.mbqi', False)
         s.set('smt.auto_config', False)
         forms = list(self.st.pc) + [z3.Not(f)]
@@ -437,6 +443,15 @@ class Run:
                 if self.spec_mode:
                     raise Unsupported('spec reads undeclared field %s.%s' % (o.cls, attr))
                 if o.cls in specmod.CLASSES and attr not in specmod.class_fields(self.repo, o.cls):
+                    if attr in self.repo.assigned_attrs(o.cls):
+                        # a field the code assigns but the contracts do not describe (e.g. a cache added by an edit):
+                        # no invariant constrains it, so it holds an arbitrary value -- None or anything else
+                        if self.path.choice(2) == 0:
+                            v = NONE
+                        else:
+                            v = OpaqueV(fresh('unk_' + attr, Opaque), 'unknown')
+                        self.st.heap[base.loc] = o.set(attr, v)
+                        return v
                     raise PyRaise('AttributeError', "'%s' object has no attribute '%s'" % (o.cls, attr))
                 raise Unsupported('attribute %s of %s object (undeclared field?)' % (attr, o.cls))
             return self.eng.lib.getattr(self, base, o, attr)
